@@ -25,6 +25,19 @@ pub assume_specification [ String::as_bytes ] (s: &String) -> (r: &[u8])
 pub assume_specification<T: PartialEq> [ <[T]>::contains ] (s: &[T], x: &T) -> (r: bool)
     ensures T::obeys_eq_spec() ==> r == (exists|i: int| 0 <= i < s@.len() && (#[trigger] s@[i]).eq_spec(x));
 
+// further std string functions (not used by the pinned sources; given a meaning so that code which starts to use
+// them is still decided instead of being out of reach)
+pub assume_specification [ str::eq_ignore_ascii_case ] (a: &str, b: &str) -> (r: bool)
+    ensures r == eq_ignore_case(a@, b@), a@ == b@ ==> r;
+pub assume_specification<P: core::str::pattern::Pattern> [ str::replace::<P> ] (s: &str, from: P, to: &str) -> (r: String)
+    ensures r@ == str_replace(s@, from, to@);
+pub assume_specification [ str::to_lowercase ] (s: &str) -> (r: String)
+    ensures r@ == str_lower(s@);
+pub assume_specification [ str::to_uppercase ] (s: &str) -> (r: String)
+    ensures r@ == str_upper(s@);
+pub assume_specification [ str::trim ] (s: &str) -> (r: &str)
+    ensures r@ == str_trim(s@);
+
 // ---------- abort-on-None/Err (rule R2) ----------
 pub trait UnwrapAbort<T>: Sized {
     spec fn ua_val(self) -> Option<T>;
@@ -213,6 +226,25 @@ impl Decimal {
         ensures (dp == 0 && s is MidpointAwayFromZero) ==> r.q@ == of_int(round_half_away(self.q@)),
                 !(dp == 0 && s is MidpointAwayFromZero) ==> r.q@ == round_other(strategy_code(s), dp as int, self.q@),
     { unimplemented!() }
+    // API not used by the pinned sources, modelled so that code which starts to use it is still decided
+    #[verifier::external_body]
+    pub fn round(&self) -> (r: Decimal) ensures r.q@ == of_int(round_half_even(self.q@)) { unimplemented!() }
+    #[verifier::external_body]
+    pub fn round_dp(&self, dp: u32) -> (r: Decimal)
+        ensures dp == 0 ==> r.q@ == of_int(round_half_even(self.q@)), dp != 0 ==> r.q@ == round_other(1, dp as int, self.q@)
+    { unimplemented!() }
+    #[verifier::external_body]
+    pub fn trunc(&self) -> (r: Decimal) ensures r.q@ == of_int(trunc_int(self.q@)) { unimplemented!() }
+    #[verifier::external_body]
+    pub fn floor(&self) -> (r: Decimal) ensures r.q@ == of_int(floor_int(self.q@)) { unimplemented!() }
+    #[verifier::external_body]
+    pub fn ceil(&self) -> (r: Decimal) ensures r.q@ == of_int(ceil_int(self.q@)) { unimplemented!() }
+    #[verifier::external_body]
+    pub fn abs(&self) -> (r: Decimal) ensures r.q@ == (if self.q@ >= 0 { self.q@ } else { -self.q@ }) { unimplemented!() }
+    #[verifier::external_body]
+    pub fn checked_add(self, o: Decimal) -> (r: Option<Decimal>) ensures r is Some ==> r->0.q@ == self.q@ + o.q@ { unimplemented!() }
+    #[verifier::external_body]
+    pub fn is_sign_positive(&self) -> (r: bool) ensures self.q@ > 0 ==> r, self.q@ < 0 ==> !r { unimplemented!() }
     #[verifier::external_body]
     pub fn to_u128(&self) -> (r: Option<u128>)
         ensures self.q@ < 0 ==> r is None, self.q@ >= 0 ==> r is Some && r->0 as int == whole(self.q@),
@@ -548,13 +580,25 @@ pub broadcast proof fn axiom_semver_reqs_parse()
 pub broadcast group axiom_semver_reqs {
     axiom_semver_req_ge_0_16_2, axiom_semver_req_ge_0_15_0, axiom_semver_req_lt_0_16_2, axiom_semver_req_window,
 }
-pub struct Version { pub g: Ghost<Ver> }
+pub struct Prerelease { pub nonempty: bool }
+impl Prerelease {
+    pub fn is_empty(&self) -> (r: bool) ensures r == !self.nonempty { !self.nonempty }
+}
+pub struct BuildMetadata { pub nonempty: bool }
+pub struct Version { pub major: u64, pub minor: u64, pub patch: u64, pub pre: Prerelease, pub build: BuildMetadata }
+impl View for Version {
+    type V = Ver;
+    open spec fn view(&self) -> Ver { Ver { major: self.major as int, minor: self.minor as int, patch: self.patch as int, pre: self.pre.nonempty } }
+}
 pub struct VersionReq { pub g: Ghost<int> }
 impl Version {
     #[verifier::external_body]
     pub fn parse(s: &str) -> (r: Result<Version, SemverError>)
-        ensures match ver_parse(s@) { Some(v) => r is Ok && r->Ok_0.g@ == v, None => r is Err }
+        ensures match ver_parse(s@) { Some(v) => r is Ok && r->Ok_0@ == v, None => r is Err }
     { unimplemented!() }
+    pub fn new(major: u64, minor: u64, patch: u64) -> (r: Version)
+        ensures r@ == (Ver { major: major as int, minor: minor as int, patch: patch as int, pre: false })
+    { Version { major, minor, patch, pre: Prerelease { nonempty: false }, build: BuildMetadata { nonempty: false } } }
     #[verifier::external_body] pub fn to_string(&self) -> (r: String) { unimplemented!() }
 }
 impl VersionReq {
@@ -563,7 +607,7 @@ impl VersionReq {
         ensures match req_parse(s@) { Some(q) => r is Ok && r->Ok_0.g@ == q, None => r is Err }
     { unimplemented!() }
     #[verifier::external_body]
-    pub fn matches(&self, v: &Version) -> (r: bool) ensures r == req_matches(self.g@, v.g@) { unimplemented!() }
+    pub fn matches(&self, v: &Version) -> (r: bool) ensures r == req_matches(self.g@, v@) { unimplemented!() }
 }
 
 // ---------- HashSet<String> and the helpers of rules R5/R6 ----------
